@@ -274,8 +274,22 @@ def unit_hess():
     return kit.run_unit("hess", run)
 
 
+def unit_complex_bounded():
+    """bounded stand-in on real torch (never counted as proved): complex holomorphic function, products against the
+    dense Jacobian (the symbolic products are over real scalars)"""
+    import re
+
+    def run():
+        c = ctx()
+        r = kit.concrete_replay("C17", ["complex_products"])
+        c.check("bounded[real torch,complex128,3x3].oracle_ran", r["returncode"] in (0, 1), detail=r["output"][-300:], kind="bounded")
+        for name, verdict in re.findall(r"ORACLE (\S+): (holds|VIOLATED[^\n]*)", r["output"]):
+            c.check("bounded[real torch,complex128,3x3].%s" % name, verdict == "holds", detail=verdict[:400], kind="bounded")
+    return kit.run_unit("complex_bounded", run)
+
+
 def units(tier):
-    return [("products[function]", lambda: unit_products("function")), ("products[EditableModule]", lambda: unit_products("em")),
+    return [("complex_bounded", unit_complex_bounded), ("products[function]", lambda: unit_products("function")), ("products[EditableModule]", lambda: unit_products("em")),
             ("products[function,after_non_tensor]", lambda: unit_products("function", 1)),
             ("products[em,after_non_tensor]", lambda: unit_products("em", 1)),
             ("idxs", unit_idxs), ("hess", unit_hess)]
